@@ -37,3 +37,18 @@ Theorem fit_file_records nmin lines :
   fit_file_m nmin lines =
   option_map (fun ss => map snd (filter (fun s => nmin <=? fst s) ss)) (sources_until_eof lkind (nat * Z) lparse lines).
 Proof. unfold fit_file_m. apply C10_records. Qed.
+
+(* ---- a fit file cut at byte k: three header pickles, then one pickle per record ---- *)
+From SedV Require Import Frame Reader.
+
+(* None = opening the file fails (a header pickle is incomplete); Some n = n records are yielded before the iteration ends *)
+Definition reader_m (lens : list nat) (k : nat) : option nat :=
+  let m := prefix_count lens k in if m <? 3 then None else Some (m - 3).
+
+Lemma prefix_count_le lens : forall k, prefix_count lens k <= length lens.
+Proof. induction lens as [|l r IH]; intros k; simpl; [auto|]. destruct (l <=? k); [specialize (IH (k - l)); auto with arith|auto with arith]. Qed.
+
+(* what is yielded is an exact prefix of the records that were written *)
+Theorem reader_prefix {A} (h1 h2 h3 : A) (recs : list A) m : 3 <= m ->
+  skipn 3 (firstn m (h1 :: h2 :: h3 :: recs)) = firstn (m - 3) recs.
+Proof. intros H. destruct m as [|[|[|m]]]; try (exfalso; auto with arith; inversion H; inversion H1; inversion H3). simpl. now rewrite Nat.sub_0_r. Qed.
